@@ -26,7 +26,8 @@
 (*   - which a float parser accepts but is no number - or an empty value)  *)
 (*   loc    option absent | "PENINSULA"; metadata absent | "CANARIAS" |    *)
 (*          "MARTE"; ffile TRUE/FALSE                                      *)
-(*   red    option absent | valid | text; metadata absent | valid | text   *)
+(*   red    option absent | valid | text | default (the documented default *)
+(*          given explicitly); metadata absent | valid | text              *)
 (* Values are strings / integers in thousandths; nothing is computed here. *)
 (***************************************************************************)
 EXTENDS Integers, Sequences, FiniteSets
@@ -52,9 +53,11 @@ RedDefault == <<0, 1300, 300>>
 
 States5 == {"absent", "valid", "fine", "edge", "range", "text"}
 States3 == {"absent", "valid", "text"}
+\* a RED1 / RED2 option may also be given with exactly the documented default (0, 1.3, 0.3): it is an option all the same
+StatesOpt == States3 \cup {"default"}
 Configs == [aopt : States5, ameta : States5, kopt : States5, kmeta : States5,
             lopt : {"absent", "PENINSULA"}, lmeta : {"absent", "CANARIAS", "MARTE"}, ffile : BOOLEAN,
-            r1opt : States3, r1meta : States3, r2opt : States3, r2meta : States3]
+            r1opt : StatesOpt, r1meta : States3, r2opt : StatesOpt, r2meta : States3]
 
 Present(s) == s # "absent"
 
@@ -65,7 +68,7 @@ Pick(opt, meta, optOk, metaOk, optVal, metaVal, def) ==
   ELSE [origin |-> "predefinido", milli |-> def]
 
 RedValue(opt, meta, optV, metaV, fileV) ==
-  IF opt = "valid" THEN optV ELSE IF meta = "valid" THEN metaV ELSE fileV
+  IF opt = "valid" THEN optV ELSE IF opt = "default" THEN <<0, 1300, 300>> ELSE IF meta = "valid" THEN metaV ELSE fileV
 
 Allowed(c) ==
   LET refuse(code) == {[exit |-> code]}
@@ -92,8 +95,8 @@ Allowed(c) ==
       ok == [exit |-> 0, area |-> a, kexp |-> k, fp |-> fp,
              red1 |-> RedValue(c.r1opt, c.r1meta, Red1Opt, Red1Meta, r1file),
              red2 |-> RedValue(c.r2opt, c.r2meta, Red2Opt, Red2Meta, RedDefault),
-             red1given |-> c.r1opt = "valid" \/ c.r1meta = "valid",
-             red2given |-> c.r2opt = "valid" \/ c.r2meta = "valid"]
+             red1given |-> c.r1opt \in {"valid", "default"} \/ c.r1meta = "valid",
+             red2given |-> c.r2opt \in {"valid", "default"} \/ c.r2meta = "valid"]
   IN IF clapConflict THEN refuse(1)
      ELSE IF optBad THEN refuse(65)
      ELSE IF noSource THEN refuse(64)
